@@ -33,7 +33,17 @@ DirFailed(ev) ==
     IN  Tag("prepare_output_directory", DirClauses(d, ev.ret.exc # "", ev.status, ev.extra, ev.after))
         \cup (IF d \notin DirConfigs THEN {"machinery/not_a_directory_configuration"} ELSE {})
 
+(* op "target": where the result files of a run go (main.canonical_base_filename, which feeds the results json, the
+   genbank and the zip file): inside the output directory - the directory the guard has examined - whatever the path
+   and the compression suffix of the input file; leaf = the file name part as character codes *)
+TargetFailed(ev) ==
+    IF ev.ret.exc # "" THEN {"target/no_exception:" \o ev.ret.exc}
+    ELSE (IF ~ev.ret.v.inside THEN {"target/results_go_into_the_examined_directory"} ELSE {})
+         \cup (IF \E i \in DOMAIN ev.ret.v.leaf : ev.ret.v.leaf[i] = 47 THEN {"target/base_name_is_a_plain_file_name"} ELSE {})
+         \cup (IF ev.ret.v.leaf = <<>> THEN {"target/base_name_not_empty"} ELSE {})
+
 Failed(ev) == CASE ev.op = "write" -> WriteFailed(ev)
+                [] ev.op = "target" -> TargetFailed(ev)
                 [] ev.op = "dir" -> DirFailed(ev)
                 [] OTHER -> {"trace/unknown_op"}
 
